@@ -196,7 +196,7 @@ def run_case(case):
         predicted[k].append(refframe.build(framing, uid, rp, r['tid'], 0))
     if framing == 'binary':
         allf = [f for fs in frames for f in fs] + [p for ps in predicted.values() for p in ps if isinstance(p, bytes)]
-        if any(any(b in (0x7B, 0x7D) for b in f[1:-1]) for f in allf):
+        if any(refframe.binary_fragile(f) for f in allf):
             return Outcome([], labels + ['excluded-binary-delimiter'], False)
     interleaved = len(case['conns']) >= 2 and any(script[i][0] != script[i + 1][0] for i in range(len(script) - 1))
     if any(len(it) > 2 for it in script):
